@@ -25,9 +25,9 @@ T = {
  "C05": (G, "3", "every exported kernel class x (d, n1!=n2, ARD, batch, parameter valuation, diag, code path, degenerate geometry) vs the documented "
          "covariance function written as an explicit scalar function of two rows", "finite input lattice"),
  "C06": (G + ", index expressions exhaustive on small shapes", "3", "kernel basis x broadcast triples x active_dims x lazy on/off x every index expression of the "
-         "per-dimension alphabet; oracle = index the dense result; kernels on discrete inputs; as many kernel batch members as points", "finite alphabet of index expressions / shapes"),
+         "per-dimension alphabet; oracle = index the dense result; kernels on discrete inputs; as many kernel batch members as points; data with an extra leading batch dimension of size one; expand_batch of batched and non-batched kernels", "finite alphabet of index expressions / shapes"),
  "C07": (G + " + exhaustive subset lattice of observations", "3", "symmetry / eigenvalues of every covariance handed out over a geometry lattice incl. duplicates; all 2^4 "
-         "training subsets and all edges of the subset lattice for monotone conditioning", "PSD for all real inputs is a theorem per kernel; only the lattice is decided"),
+         "training subsets and all edges of the subset lattice for monotone conditioning; variance floor; noise floor of every Gaussian-family likelihood incl. the likelihood built for a fantasy model", "PSD for all real inputs is a theorem per kernel; only the lattice is decided"),
  "C08": (G, "3", "every (module, parameter batch shape, data batch shape) broadcastable pair of rank 0..2 x every batch element vs a non-batched replica",
          "finite shape alphabet"),
  "C09": (G, "3", "structured kernels vs explicit dense formulas; kernel-specific prediction strategies vs the default dense conditional on the same approximate matrix; "
